@@ -59,15 +59,13 @@
 (***************************************************************************)
 EXTENDS Integers, Sequences, FiniteSets, TLC
 
-CONSTANTS Keys, Claimers, Interferers, Dev, NOW,
-          ClaimReqs,      \* requests a claimer may issue   (model checking only)
-          IntOps          \* operations an interferer may issue (model checking only)
+CONSTANTS Keys, Claimers, Interferers, Dev, NOW
 
 VARIABLES mode,   \* "mem": records never persisted (in-memory swamp); "disk": persisted at once (write interval 0)
           rec,    \* [Keys -> [live, exp, grp, st]]
           ix,     \* [Keys -> Nat]: value under which the key is filed in the expiration index, 0 = not filed
-          held,   \* [Keys -> SUBSET {"exp","key"}]: indexes from which a claim in progress removed the key
-          lock,   \* [{"exp","key"} -> holder or ""]
+          held,   \* [Keys -> SUBSET Idx]: indexes from which a claim in progress removed the key
+          lock,   \* [Idx -> holder or ""]
           pc, req, cand, walk, res, todo, out,   \* per process
           owner,  \* ghost: [Keys -> claimer that received the current incarnation of the key or ""]
           alive,  \* ghost: keys that have ever been live
@@ -78,7 +76,10 @@ VARIABLES mode,   \* "mem": records never persisted (in-memory swamp); "disk": p
 vars == <<mode, rec, ix, held, lock, pc, req, cand, walk, res, todo, out, owner, alive, bad, used, nops>>
 
 Procs == Claimers \cup Interferers
-Idx == {"exp", "key"}
+\* the four ordered indexes (beacons) a claim can walk: expiration time / key, ascending / descending
+Idx == {"expA", "expD", "keyA", "keyD"}
+ExpIdx == {"expA", "expD"}
+KeyIdx == {"keyA", "keyD"}
 Dead == [live |-> FALSE, exp |-> 0, grp |-> "", st |-> ""]
 NoReq == [kind |-> ""]
 Inf == 1000000
@@ -114,8 +115,9 @@ Residual(f, r) == IF f.mode = "and" THEN (f.useS => r.st # f.S) ELSE TRUE
 
 InWin(q, e) == (q.lo = -1 \/ e >= q.lo) /\ (q.hi = -1 \/ e < q.hi)
 
-IdxOf(q) == IF q.kind = "sm" THEN q.idx ELSE "exp"
 DescOf(q) == q.kind = "sm" /\ q.desc
+IdxOf(q) == IF q.kind = "sm" THEN (IF q.idx = "exp" THEN (IF q.desc THEN "expD" ELSE "expA") ELSE (IF q.desc THEN "keyD" ELSE "keyA"))
+            ELSE "expA"
 
 EffN(q) ==
   CASE q.kind = "se" -> IF q.n = 0 THEN Inf ELSE q.n
@@ -162,12 +164,12 @@ SortedSeqs(S, v) ==
 
 \* keys a walk over index x meets: filed there and not removed by a claim in progress
 Members(x) ==
-  LET filed == IF x = "exp" THEN {k \in Keys : ix[k] # 0} ELSE {k \in Keys : rec[k].live}
+  LET filed == IF x \in ExpIdx THEN {k \in Keys : ix[k] # 0} ELSE {k \in Keys : rec[k].live}
   IN IF Has("IndexLocalClaim") THEN {k \in filed : x \notin held[k]} ELSE {k \in filed : held[k] = {}}
 
 WalkOrders(q) ==
   LET x == IdxOf(q)
-      v == [k \in Keys |-> LET a == IF x = "exp" THEN ix[k] ELSE k IN IF DescOf(q) THEN 0 - a ELSE a]
+      v == [k \in Keys |-> LET a == IF x \in ExpIdx THEN ix[k] ELSE k IN IF DescOf(q) THEN 0 - a ELSE a]
   IN SortedSeqs(Members(x), v)
 
 LocksOf(q) == IF Has("IndexLocalClaim") THEN {IdxOf(q)} ELSE Idx
@@ -182,7 +184,8 @@ Init ==
   /\ todo = [p \in Procs |-> <<>>] /\ out = [p \in Procs |-> <<>>]
   /\ owner = [k \in Keys |-> ""] /\ alive = {} /\ bad = {} /\ used = {} /\ nops = 0
 
-ClaimersIdle == \A c \in Claimers : pc[c] = "idle"
+Quiet(p) == pc[p] \in {"idle", "done"}
+ClaimersIdle == \A c \in Claimers : Quiet(c)
 
 (* ------------------------------- claimers ------------------------------ *)
 
@@ -222,7 +225,7 @@ Visit(c) ==
          strict == Criteria(q, rec[k])
          judged == Judged(q, c, k)
          take == judged /\ room
-         iv == IF x = "exp" THEN ix[k] ELSE k
+         iv == IF x \in ExpIdx THEN ix[k] ELSE k
      IN
      /\ walk' = [walk EXCEPT ![c] = Tail(walk[c])]
      /\ IF take
@@ -246,7 +249,7 @@ Unlock(c) ==
   /\ lock' = [x \in Idx |-> IF lock[x] = c THEN "" ELSE lock[x]]
   /\ walk' = [walk EXCEPT ![c] = <<>>]
   /\ todo' = [todo EXCEPT ![c] = res[c]]
-  /\ pc' = [pc EXCEPT ![c] = "fin"]
+  /\ pc' = [pc EXCEPT ![c] = IF res[c] = <<>> THEN "ret" ELSE "fin"]
   /\ UNCHANGED <<mode, rec, ix, held, req, cand, res, out, owner, alive, bad, used, nops>>
 
 Kill(k) == IF KeepBody THEN [rec[k] EXCEPT !.live = FALSE] ELSE Dead
@@ -257,13 +260,14 @@ DelStep(c) ==
   /\ LET e == Head(todo[c])
          k == e.k
      IN /\ todo' = [todo EXCEPT ![c] = Tail(todo[c])]
+        /\ pc' = [pc EXCEPT ![c] = IF Len(todo[c]) = 1 THEN "ret" ELSE "fin"]
         /\ out' = [out EXCEPT ![c] = Append(out[c], [k |-> k, exp |-> e.exp, grp |-> e.grp, st |-> e.st])]
         /\ IF rec[k].live
              THEN /\ rec' = [rec EXCEPT ![k] = Kill(k)]
                   /\ ix' = [ix EXCEPT ![k] = 0]
                   /\ held' = [held EXCEPT ![k] = {}]
              ELSE UNCHANGED <<rec, ix, held>>
-  /\ UNCHANGED <<mode, lock, pc, req, cand, walk, res, owner, alive, bad, used, nops>>
+  /\ UNCHANGED <<mode, lock, req, cand, walk, res, owner, alive, bad, used, nops>>
 
 \* patch-expired: applyPatchExpiredOne for every selected record
 PatchStep(c) ==
@@ -276,22 +280,26 @@ PatchStep(c) ==
          newexp == IF q.lease # 0 THEN q.lease ELSE r.exp
          patched == [live |-> TRUE, exp |-> newexp, grp |-> r.grp, st |-> q.newst]
          resurrects == ~r.live /\ KeepBody
+         \* before its first patch PatchExpired removes the selected records from the descending expiration beacon too
+         sel == {res[c][i].k : i \in DOMAIN res[c]}
+         Mirrored == [j \in Keys |-> IF todo[c] = res[c] /\ j \in sel /\ "expA" \in held[j] THEN held[j] \cup {"expD"} ELSE held[j]]
      IN
      /\ todo' = [todo EXCEPT ![c] = Tail(todo[c])]
      /\ IF r.live \/ resurrects
           THEN IF condOK
                  THEN /\ rec' = [rec EXCEPT ![k] = patched]
                       /\ out' = [out EXCEPT ![c] = Append(out[c], [k |-> k, status |-> "PATCHED", exp |-> newexp, grp |-> r.grp, st |-> q.newst])]
-                      \* Save re-files the record under its new expiry at once (a brand new record goes into every index)
-                      /\ ix' = [ix EXCEPT ![k] = IF newexp # r.exp \/ resurrects THEN newexp ELSE ix[k]]
-                      /\ held' = [held EXCEPT ![k] = IF resurrects \/ newexp # r.exp THEN {} ELSE held[k] \ {"key"}]
+                      \* the caller is done with this record: Save files it again under its (new) expiry at once
+                      /\ ix' = [ix EXCEPT ![k] = newexp]
+                      /\ held' = [j \in Keys |-> IF j = k THEN {} ELSE Mirrored[j]]
                       /\ bad' = IF resurrects THEN bad \cup {<<"NoResurrection", c, k>>} ELSE bad
                       /\ used' = IF resurrects THEN used \cup {"Resurrect"} ELSE used
                  ELSE /\ out' = [out EXCEPT ![c] = Append(out[c], [k |-> k, status |-> "CONDITION_NOT_MET", exp |-> 0, grp |-> "", st |-> ""])]
-                      /\ held' = [held EXCEPT ![k] = held[k] \ {"key"}]
+                      /\ held' = [j \in Keys |-> IF j = k THEN Mirrored[k] \ KeyIdx ELSE Mirrored[j]]
                       /\ UNCHANGED <<rec, ix, bad, used>>
           ELSE /\ out' = [out EXCEPT ![c] = Append(out[c], [k |-> k, status |-> "KEY_NOT_FOUND", exp |-> 0, grp |-> "", st |-> ""])]
-               /\ UNCHANGED <<rec, ix, held, bad, used>>
+               /\ held' = Mirrored
+               /\ UNCHANGED <<rec, ix, bad, used>>
      \* the caller has had its turn on this record: the claim on it is over
      /\ owner' = [owner EXCEPT ![k] = IF owner[k] = c THEN "" ELSE owner[k]]
   /\ UNCHANGED <<mode, lock, pc, req, cand, walk, res, alive, nops>>
@@ -299,19 +307,14 @@ PatchStep(c) ==
 \* patch-expired: ReindexExpiration(selected) under the expiration beacon's lock; the claim is over
 CReindex(c) ==
   /\ c \in Claimers /\ pc[c] = "fin" /\ req[c].kind = "pe" /\ todo[c] = <<>>
-  /\ lock["exp"] = ""
+  /\ lock["expA"] = ""
   /\ LET sel == {res[c][i].k : i \in DOMAIN res[c]}
          ghosts == {k \in sel : ~rec[k].live /\ KeepBody /\ rec[k].exp # 0}
      IN /\ ix' = [k \in Keys |-> IF k \in sel THEN (IF rec[k].live \/ k \in ghosts THEN rec[k].exp ELSE 0) ELSE ix[k]]
-        /\ held' = [k \in Keys |-> IF k \in sel THEN held[k] \ {"exp"} ELSE held[k]]
+        /\ held' = [k \in Keys |-> IF k \in sel THEN held[k] \ ExpIdx ELSE held[k]]
         /\ used' = IF ghosts # {} THEN used \cup {"Resurrect"} ELSE used
   /\ pc' = [pc EXCEPT ![c] = "ret"]
   /\ UNCHANGED <<mode, rec, lock, req, cand, walk, res, todo, out, owner, alive, bad, nops>>
-
-ShiftDone(c) ==
-  /\ c \in Claimers /\ pc[c] = "fin" /\ req[c].kind \in {"se", "sm"} /\ todo[c] = <<>>
-  /\ pc' = [pc EXCEPT ![c] = "ret"]
-  /\ UNCHANGED <<mode, rec, ix, held, lock, req, cand, walk, res, todo, out, owner, alive, bad, used, nops>>
 
 Return(p) ==
   /\ pc[p] = "ret"
@@ -332,6 +335,10 @@ ICall(i, o) ==
   /\ out' = [out EXCEPT ![i] = <<>>]
   /\ nops' = nops + 1
   /\ UNCHANGED <<mode, rec, ix, held, lock, cand, walk, res, todo, owner, alive, bad, used>>
+
+\* as built every save of a record that has an expiry files it again in the expiration beacons (its "expiry
+\* changed" flag is never cleared), which matters when a claim in progress had removed it from there
+Refiles(k) == Has("IndexLocalClaim") /\ held[k] \cap ExpIdx # {}
 
 Apply(i) ==
   /\ i \in Interferers /\ pc[i] = "do"
@@ -358,7 +365,7 @@ Apply(i) ==
             \* a new record is absent from the expiration index until it is filed; a changed expiry is re-filed
             /\ ix' = [ix EXCEPT ![k] = IF r.live THEN ix[k] ELSE 0]
             /\ held' = [held EXCEPT ![k] = IF r.live THEN held[k] ELSE {}]
-            /\ pc' = [pc EXCEPT ![i] = IF (r.live /\ o.e # r.exp) \/ (~r.live /\ o.e # 0) THEN "rx" ELSE "ret"]
+            /\ pc' = [pc EXCEPT ![i] = IF (r.live /\ (o.e # r.exp \/ Refiles(k))) \/ (~r.live /\ o.e # 0) THEN "rx" ELSE "ret"]
        [] o.kind = "patch" ->
             /\ IF r.live
                  THEN /\ rec' = [rec EXCEPT ![k] = [live |-> TRUE,
@@ -366,7 +373,7 @@ Apply(i) ==
                                                      grp |-> IF o.g = "" THEN r.grp ELSE o.g,
                                                      st  |-> IF o.s = "" THEN r.st ELSE o.s]]
                       /\ out' = [out EXCEPT ![i] = <<"PATCHED">>]
-                      /\ pc' = [pc EXCEPT ![i] = IF o.e # -1 /\ o.e # r.exp THEN "rx" ELSE "ret"]
+                      /\ pc' = [pc EXCEPT ![i] = IF (o.e # -1 /\ o.e # r.exp) \/ Refiles(k) THEN "rx" ELSE "ret"]
                  ELSE /\ out' = [out EXCEPT ![i] = <<"KEY_NOT_FOUND">>]
                       /\ pc' = [pc EXCEPT ![i] = "ret"]
                       /\ UNCHANGED rec
@@ -376,23 +383,22 @@ Apply(i) ==
 \* SaveFunction's IsExpirationTimeChanged / new-record branch: delete + add + sort under the expiration beacon's lock
 IReindex(i) ==
   /\ i \in Interferers /\ pc[i] = "rx"
-  /\ lock["exp"] = ""
+  /\ lock["expA"] = "" /\ lock["expD"] = ""
   /\ LET k == req[i].k IN
        /\ ix' = [ix EXCEPT ![k] = IF rec[k].live THEN rec[k].exp ELSE ix[k]]
-       /\ held' = [held EXCEPT ![k] = IF rec[k].live /\ Has("IndexLocalClaim") THEN held[k] \ {"exp"} ELSE held[k]]
-       /\ used' = IF rec[k].live /\ Has("IndexLocalClaim") /\ "exp" \in held[k] THEN used \cup {"IndexLocalClaim"} ELSE used
+       /\ held' = [held EXCEPT ![k] = IF rec[k].live /\ rec[k].exp # 0 /\ Has("IndexLocalClaim") THEN held[k] \ ExpIdx ELSE held[k]]
+       /\ used' = IF rec[k].live /\ rec[k].exp # 0 /\ Has("IndexLocalClaim") /\ held[k] \cap ExpIdx # {} THEN used \cup {"IndexLocalClaim"} ELSE used
   /\ pc' = [pc EXCEPT ![i] = "ret"]
   /\ UNCHANGED <<mode, rec, lock, req, cand, walk, res, todo, out, owner, alive, bad, nops>>
 
 -----------------------------------------------------------------------------
-Next ==
+\* ClaimReqs / IntOps: the requests claimers / interferers may issue (model checking)
+Steps(ClaimReqs, IntOps) ==
   \/ \E c \in Claimers : \/ \E q \in ClaimReqs : Call(c, q)
                          \/ BuildPredicate(c) \/ Lock(c) \/ Visit(c) \/ Unlock(c)
-                         \/ DelStep(c) \/ PatchStep(c) \/ CReindex(c) \/ ShiftDone(c) \/ Return(c)
+                         \/ DelStep(c) \/ PatchStep(c) \/ CReindex(c)
   \/ \E i \in Interferers : \/ \E o \in IntOps : ICall(i, o)
-                            \/ Apply(i) \/ IReindex(i) \/ Return(i)
-
-Spec == Init /\ [][Next]_vars
+                            \/ Apply(i) \/ IReindex(i)
 
 -----------------------------------------------------------------------------
 (* Properties (C11) *)
@@ -416,6 +422,6 @@ IndexOrder ==
 \* the selection lock is exclusive
 LockOK == \A x \in Idx : lock[x] \in Procs \cup {""}
 \* dead records are not filed and not held once no claim is in progress (no ghosts)
-NoGhost == ClaimersIdle /\ (\A i \in Interferers : pc[i] = "idle") => \A k \in Keys : ~rec[k].live => ix[k] = 0
+NoGhost == (\A p \in Procs : Quiet(p)) => \A k \in Keys : ~rec[k].live => ix[k] = 0
 
 =============================================================================
